@@ -36,7 +36,7 @@ ASSUMPTIONS = ['openpyxl writes what the generator planted (floats with 16 signi
 FLOORS = {'quick': {'evaluations': 4000, 'nontrivial': 2000, 'counters': {'grid_cells_checked': 5000, 'excel_parse_hooked': 100, 'exotic_books': 6, 'cursor_cell_queries': 500}},
           'thorough': {'evaluations': 80000, 'nontrivial': 40000, 'counters': {'grid_cells_checked': 100000, 'excel_parse_hooked': 2000}}}
 
-TITLES = ['S1', 'Data_2', 'my sheet', 'Лист1', '2024', 'a.b', 'Main', 'T-1', 'x y z', 'Q', 'R2D2', "it's", 'A', 'B', 'AB', 'Sheet10']
+TITLES = ['\u0438\u0306\u043e\u0434', 'e\u0301te\u0301', 'S1', 'Data_2', 'my sheet', 'Лист1', '2024', 'a.b', 'Main', 'T-1', 'x y z', 'Q', 'R2D2', "it's", 'A', 'B', 'AB', 'Sheet10']
 
 
 # ---- hook on Excel.parse -------------------------------------------------------------------------------
